@@ -54,7 +54,9 @@ pub const KEYS: &[&str] = &["a", "b", "zz", "0", "1", "10", "", "A", "é", "_s",
     // characters outside the Basic Multilingual Plane (four UTF-8 bytes, a surrogate pair when escaped)
     "k\u{1F600}", "\u{1D11E}",
     // a sibling's name continued by a character that sorts below '/', and one that sorts above it
-    "a b", "a-b", "a.b", "a#", "a:b"];
+    "a b", "a-b", "a.b", "a#", "a:b",
+    // member names that read as numbers but are not canonical decimal spellings
+    "007", "+44", "01"];
 
 fn scalar(r: &mut Rng) -> Value {
     match r.below(9) {
@@ -212,6 +214,12 @@ pub fn plant_doubles(r: &mut Rng, claims: &mut Value) {
     if let Value::Object(m) = claims {
         let f = f64::from_bits(r.next() & 0x7fef_ffff_ffff_ffff);
         m.insert("dbl".to_string(), json!(f));
+        // registered time claims are claims like any other: a NumericDate with a fraction or an exponent comes back as it is
+        if r.chance(1, 2) {
+            let name = *r.pick(&["iat", "nbf", "exp", "auth_time"]);
+            let v = *r.pick(&[1_900_000_000.5f64, 1.9e9 + 0.25, 1_700_000_000.75, 4.2e9 + 0.5]);
+            m.insert(name.to_string(), json!(v));
+        }
     }
 }
 
@@ -242,7 +250,24 @@ pub fn gen_marking(r: &mut Rng, claims: &Value, nonempty: bool) -> Vec<TPath> {
     if m.is_empty() && nonempty {
         m.push(r.pick(&nodes).clone());
     }
+    if r.chance(1, 2) {
+        m = reorder_marking(r, m);
+    }
     m
+}
+
+/// another valid order of the same marking: any order in which every node comes after the marked nodes below it - siblings,
+/// cousins and the elements of one array in any order (a post-order walk only ever produces one of these orders)
+pub fn reorder_marking(r: &mut Rng, mut rest: Vec<TPath>) -> Vec<TPath> {
+    let mut out = Vec::with_capacity(rest.len());
+    while !rest.is_empty() {
+        let free: Vec<usize> = (0..rest.len())
+            .filter(|&i| !rest.iter().enumerate().any(|(j, q)| j != i && q.len() > rest[i].len() && is_prefix(&rest[i], q)))
+            .collect();
+        let k = *r.pick(&free);
+        out.push(rest.remove(k));
+    }
+    out
 }
 
 pub fn is_prefix(a: &[Tok], b: &[Tok]) -> bool {
